@@ -157,7 +157,9 @@ def main():
                     "all sequences of length 2 (quick) / 3 (thorough) over 5 invocation kinds, one type", getattr(history_witness, "evaluations", 0), wt is None, str(wt or ""))
     if wt and not run.failures:
         run.fail(report.Failure("native#history", "frame", f"nnvg history {wt['input']}: {wt['why']}", {"witness": wt}, True))
-    run.trust("SMT solvers", "E-PY (vk/epy.py)", "E-FX (vk/efx.py)", "history induction lemma L2 (paper): a per-run post-state that does not mention the pre-state, plus the frame, gives the statement for every finite history")
+    from props import lean_glue
+    lean_glue.lemmas(run, "Glue.lean", ["L2_stable", "L2_history"], "per-run post-state that does not mention the pre-state + frame => after any finite history every generated file equals a fresh run's")
+    run.trust("SMT solvers", "E-PY (vk/epy.py)", "E-FX (vk/efx.py)", "lean 4 (history induction lemma L2, lean/Glue.lean, checked on every run)")
     run.assume("open(path, 'w') truncates, requires the owner-write bit on an existing file and keeps its mode; chmod/stat/exists as documented",
                "the content written is the rendered text (C15 covers the line-processor path); st_mode fits 16 bits")
     run.explanation = "the gate's contract is proved for every (exists, mode, content) pre-state; the rest of the run contract is ordering/dominance on the AST"
